@@ -193,6 +193,9 @@ def run_case(case, root, cap=90.0):
             _t.sleep(0.0005)
         close_seen.append(-2)
         b.wire.server_end.close()
+        # like a paramiko Channel whose peer went away, the client's pipe end now *reports* closed
+        # (already delivered bytes stay readable)
+        b.wire.client_end.closed = True
 
     def cbf(done, total):
         cb_calls.append((done, total))
@@ -359,3 +362,126 @@ def iso_case(args):
         return run_case(args, root, cap=25.0)
     finally:
         shutil.rmtree(root, ignore_errors=True)
+
+
+# --------------------------------------------------------------------------
+# the same "connection gone before close()" cells over a REAL client/server Transport pair
+# --------------------------------------------------------------------------
+def run_case_ssh(case, root, cap=90.0):
+    """case: op in put/putfo/pfile, size, cseed, confirm, fault=["write",k,code]|["stall",k]|None, close="gone_before_close".
+    SFTPClient.from_transport over vf.pair (real Channels); the server *transport* is closed from the progress
+    callback of the last chunk (or after the last write of the hand-driven file) and the harness waits until the
+    client-side Channel reports closed before the transfer proceeds to close()."""
+    import time
+
+    import paramiko
+    from vf import pair
+
+    data = sftpread.content(case["size"], case["cseed"])
+    fault = case.get("fault")
+    script = sftpfaults.Script()
+    if fault and fault[0] == "write":
+        script.fail_write = {fault[1]: fault[2]}
+    stall_from = fault[1] if fault and fault[0] == "stall" else None
+    ctrl = dict(seen=0, stalled=0, answered=0)
+
+    class Server(paramiko.SFTPServer):
+        def _process(self, t, request_number, msg):
+            if t == 6:
+                ctrl["seen"] += 1
+                if stall_from is not None and ctrl["seen"] - 1 >= stall_from:
+                    ctrl["stalled"] += 1
+                    return
+            r = paramiko.SFTPServer._process(self, t, request_number, msg)
+            if t == 6:
+                ctrl["answered"] += 1
+            return r
+
+    os.makedirs(os.path.join(root, "srv"), exist_ok=True)
+    os.makedirs(os.path.join(root, "loc"), exist_ok=True)
+    remote, local = os.path.join(root, "srv", "r"), os.path.join(root, "loc", "l")
+    for p_ in (remote, local):
+        if os.path.exists(p_):
+            os.remove(p_)
+    with open(local, "wb") as fh:
+        fh.write(data)
+    pr = pair.Pair()
+    pr.ts.set_subsystem_handler("sftp", Server, sftpfaults.FaultyServer, root=os.path.join(root, "srv"), script=script)
+    out = dict(status="ok", transport="ssh")
+    try:
+        if not pr.start():
+            return dict(status="watchdog", chain=["handshake failed"], transport="ssh")
+        pr.auth()
+        c = paramiko.SFTPClient.from_transport(pr.tc)
+        nwrites = case["nwrites"]
+        cb_calls = []
+        info = dict(channel_closed=False)
+
+        def gone():
+            end = time.monotonic() + 10
+            while time.monotonic() < end and not (ctrl["seen"] >= nwrites and ctrl["answered"] >= nwrites - ctrl["stalled"]):
+                time.sleep(0.001)
+            time.sleep(0.05)  # let the last statuses travel
+            pr.ts.close()
+            end = time.monotonic() + 10
+            while time.monotonic() < end and not c.sock.closed:
+                time.sleep(0.001)
+            info["channel_closed"] = bool(c.sock.closed)
+
+        def cb(done, total):
+            cb_calls.append(done)
+            if len(cb_calls) == nwrites:
+                gone()
+
+        box = dict(done=False, exc=None)
+
+        def work():
+            try:
+                op = case["op"]
+                if op == "put":
+                    c.put(local, "/r", callback=cb, confirm=case["confirm"])
+                elif op == "putfo":
+                    c.putfo(io.BytesIO(data), "/r", len(data), cb, case["confirm"])
+                else:
+                    f = c.open("/r", "wb", case.get("bufsize", -1))
+                    f.set_pipelined(True)
+                    for o in range(0, len(data), 32768):
+                        f.write(data[o:o + 32768])
+                    f.flush()
+                    gone()
+                    f.close()
+            except BaseException as e:  # noqa
+                box["exc"] = e
+            finally:
+                box["done"] = True
+
+        w = threading.Thread(target=work, daemon=True, name="vf-c29-ssh-worker")
+        w.start()
+        w.join(cap)
+        if not box["done"]:
+            import sys
+            import traceback
+
+            fr = sys._current_frames().get(w.ident)
+            return dict(status="watchdog", transport="ssh", chain=sftpread._paramiko_chain(fr) if fr else [],
+                        stack="".join(traceback.format_stack(fr))[-1200:] if fr else "")
+        if box["exc"] is not None:
+            from vf import core
+
+            e = box["exc"]
+            out.update(outcome="raised", exc=type(e).__name__, exc_text=str(e)[:100], exc_sig=core.exc_signature(e))
+        else:
+            try:
+                with open(remote, "rb") as fh:
+                    dest = fh.read()
+            except OSError:
+                dest = None
+            out.update(outcome="returned", exact=dest == data, dest_len=None if dest is None else len(dest), src_len=len(data),
+                       dest_is_prefix=dest is not None and data.startswith(dest))
+        out.update(writes=ctrl["seen"], stalled_writes=ctrl["stalled"], close_plan="gone_before_close",
+                   close_fault_delivered=info["channel_closed"], client_channel_reported_closed=info["channel_closed"],
+                   fault_delivered=bool(fault) and (ctrl["stalled"] > 0 if fault[0] == "stall" else
+                                                    any(e[0] == "write" and e[4] == "status" for e in script.log)))
+        return out
+    finally:
+        pr.close()
